@@ -944,6 +944,19 @@ def b_op_energy(ex, st, a, m, c):
 @builtin(r"^<opaque::Shape as traits::Intersect>::intersects$", "opaque shape: intersects = uninterpreted predicate")
 def b_op_intersects(ex, st, a, m, c):
     p, q = deref_arg(ex, st, a[0]), deref_arg(ex, st, a[1])
+    if getattr(ex, "record_intersects", None) is not None:
+        # recording mode (C01): a fresh Boolean per tested pair, logged with both placements and the
+        # caller's shell count (the local the MIR's debug info names `periodic_range`)
+        fr = st.frames[-1]
+        k = None
+        dn = fr.fn.debug.get("periodic_range")
+        if dn:
+            mm = re.match(r"_(\d+)$", dn[0])
+            if mm and int(mm.group(1)) in fr.locals:
+                k = fr.locals[int(mm.group(1))]
+        x = ex.fresh_var("X", "B")
+        ex.record_intersects.append(dict(k=k, p=list(p.fields), q=list(q.fields), x=x, fn=fr.fn.name))
+        return x
     return T.uf("X", list(p.fields) + list(q.fields), "B")
 
 
@@ -1028,3 +1041,105 @@ def b_opt_int_cmp(ex, st, a, m, c):
 @builtin(r" as Itertools>::tuple_windows::<\(&[\w:]+, &[\w:]+\)>$", "itertools::tuple_windows for pairs (adjacent items)")
 def b_tuplewin(ex, st, a, m, c):
     return it("win2", a[0], None, 0)
+
+
+# ------------------------------------------------------------------------------- strings (C17)
+# A string is Agg("str", [chars]) where chars is a python str (concrete) or a tuple of character
+# codes (ints or integer terms).
+
+def chars_of(v):
+    c = v.fields[0]
+    if isinstance(c, str):
+        return [ord(ch) for ch in c]
+    return list(c)
+
+
+def mkstr(chars):
+    return Agg("str", [tuple(chars)])
+
+
+@builtin(r"core::str::<impl str>::trim_matches::<&\[char\]>$", "str::trim_matches(&[char]): strips concrete leading/trailing characters of the set (symbolic characters are assumed outside the set)")
+def b_trim(ex, st, a, m, c):
+    s = deref_arg(ex, st, a[0])
+    pat = deref_arg(ex, st, a[1])
+    pset = set(pat.fields) if isinstance(pat, Agg) else set()
+    ch = chars_of(s)
+    while ch and not T.is_t(ch[0]) and ch[0] in pset:
+        ch = ch[1:]
+    while ch and not T.is_t(ch[-1]) and ch[-1] in pset:
+        ch = ch[:-1]
+    return mkstr(ch)
+
+
+@builtin(r"core::str::<impl str>::split_terminator::<char>$", "str::split_terminator(char) on concrete separators")
+def b_split(ex, st, a, m, c):
+    s = deref_arg(ex, st, a[0])
+    sep = a[1]
+    pieces, cur = [], []
+    for chv in chars_of(s):
+        if not T.is_t(chv) and chv == sep:
+            pieces.append(mkstr(cur))
+            cur = []
+        else:
+            cur.append(chv)
+    if cur:
+        pieces.append(mkstr(cur))
+    return it("vecinto", Agg("vec", pieces), 0)
+
+
+@builtin(r"core::str::<impl str>::chars$", "str::chars")
+def b_chars(ex, st, a, m, c):
+    s = deref_arg(ex, st, a[0])
+    return it("vecinto", Agg("vec", chars_of(s)), 0)
+
+
+@builtin(r"^<char as ToString>::to_string$", "char::to_string")
+def b_char_to_string(ex, st, a, m, c):
+    return mkstr([deref_arg(ex, st, a[0])])
+
+
+@builtin(r"core::str::<impl str>::parse::<u64>$", "str::parse::<u64> of a single character: Ok(c - '0') for a digit, Err otherwise")
+def b_parse_u64(ex, st, a, m, c):
+    s = deref_arg(ex, st, a[0])
+    ch = chars_of(s)
+    if len(ch) != 1:
+        if all(not T.is_t(x) for x in ch):
+            try:
+                return mk_enum("Result", "Ok", [int("".join(chr(x) for x in ch))])
+            except ValueError:
+                return mk_enum("Result", "Err", [Agg("struct:ParseIntError", [])])
+        raise Unsupported("parse::<u64> of a multi-character symbolic string")
+    x = ch[0]
+    if not T.is_t(x):
+        if 48 <= x <= 57:
+            return mk_enum("Result", "Ok", [x - 48])
+        return mk_enum("Result", "Err", [Agg("struct:ParseIntError", [])])
+    isd = T.band(T.icmp("ile", 48, x), T.icmp("ile", x, 57))
+    return Enum("Result", [(isd, "Ok", [T.ibin("isub", x, 48)]), (T.bnot(isd), "Err", [Agg("struct:ParseIntError", [])])])
+
+
+@builtin(r"^<Result<.*> as Try>::branch$", "Try::branch on Result")
+def b_try_branch(ex, st, a, m, c):
+    v = a[0]
+    alts = []
+    for cnd, vn, f in v.alts:
+        if vn == "Ok":
+            alts.append((cnd, "Continue", [f[0]]))
+        else:
+            alts.append((cnd, "Break", [Enum("Result", [(True, "Err", [f[0]])])]))
+    return Enum("ControlFlow", alts)
+
+
+@builtin(r" as FromResidual<Result<Infallible, .*>>>::from_residual$", "FromResidual: propagate the error")
+def b_from_residual(ex, st, a, m, c):
+    return mk_enum("Result", "Err", [Agg("struct:Error", [])])
+
+
+@builtin(r"^anyhow::private::new_adhoc::<", "anyhow error constructor (opaque)")
+def b_anyhow(ex, st, a, m, c):
+    return Agg("struct:Error", [])
+
+
+@builtin(r"^std::fmt::format$|^must_use::<String>$|^alloc::fmt::format$", "message formatting (opaque)")
+def b_format(ex, st, a, m, c):
+    return Agg("str", [""])
